@@ -2,6 +2,8 @@
 UNITS = [
     # fill() clears the image with a memset of symbolic length: byte-loop memset for the solver (CBMC's built-in model loses such writes)
     Unit('pool', harness=['h_constpool.cpp'], repo_units=['asmjit/core/constpool.cpp'], extra_c=['stubs_memset.c']),
+    # constpool.cpp compiled inside the harness against tree_model.h (typed child links instead of tagged integers)
+    Unit('poolm', harness=['h_poolm.cpp'], repo_units=[], cbmc_defines=['VERIF_MEM_LOOPS']),
 ]
 # loops of the harness helpers (bytes of the constants, the 56-byte image); everything else - the pool's tree walks, gap lists,
 # the loops over the K constants - is bounded by the small global unwind
@@ -9,6 +11,9 @@ LONG = ','.join(['memset.0:200', 'memcmp.0:18', '_ZL10copy_bytesPhPKhj.0:18', '_
                  '_ZN6asmjit5v1_219ConstPool5resetEv.0:9', '_ZNK6asmjit5v1_219ConstPool4fillEPv.0:9', '_ZNK6asmjit5v1_219ConstPool4fillEPv.1:9', '_ZNK6asmjit5v1_219ConstPool4fillEPv.2:9', '_ZNK6asmjit5v1_219ConstPool4fillEPv.3:9', '_ZNK6asmjit5v1_219ConstPool4fillEPv.4:9',
                  ] + ['_ZN6asmjit5v1_219ConstPool3addEPKvmNS0_3OutImEE.%d:8' % i for i in (1, 2, 3)] + ['_ZN6asmjit5v1_219ConstPool3addEPKvmNS0_3OutImEE.%d:6' % i for i in (22, 23, 24)] + [
                  '_ZL11check_imagePKhmPK5Entryj.0:58', '_ZL11check_imagePKhmPK5Entryj.1:58', '_ZL11fresh_bytesPh.0:18', '_ZL5paintPh.0:58'])
+MLONG = ','.join(['verif_memset_n.0:60', 'verif_memcpy_n.0:20', 'memcmp.0:18', '_ZL10copy_bytesPhPKhj.0:18', '_ZL10keep_bytesR5EntryPKhm.0:34', '_ZL10part_equalRK5EntryS1_.0:34', '_ZL10same_bytesPKhS0_m.0:34',
+                  '_ZL11check_imagePKhmPK5Entryj.0:58', '_ZL11check_imagePKhmPK5Entryj.1:58', '_ZL11fresh_bytesPh.0:18', '_ZL5paintPh.0:58', '_ZL8env_arenav.0:22'])
+BM = 'model tree (typed links, no balancing); add sizes %s from the empty pool, 16 symbolic data bytes per add (a later add may repeat an earlier constant, share its first 4 bytes, or be its bytes 4..7 / 8..15), %s into a guarded 56-byte image'
 B = 'add sizes %s from the empty pool, 16 symbolic data bytes per add (a later add may repeat the first constant, its upper half or its bytes 4..7), then (sequences 1,4,2 / 1,8,1 / 2,65 / 0,3 only) fill() into a guarded 56-byte image'
 HARNESSES = [
     Harness('pool', 'h_pool_' + nm, unwind=5, unwindset=LONG + ''.join(',h_pool_%s.%d:%d' % (nm, i, 22 if i < 2 else 9) for i in range(24)), mem_gb=mem, timeout=to, tiers=tiers, bounds=B % nm.replace('_', ','))
@@ -17,6 +22,9 @@ HARNESSES = [
 ] + [
     Harness('pool', 'h_pool_8_lookup', unwind=5, unwindset=LONG + ''.join(',h_pool_8_lookup.%d:%d' % (i, 22 if i < 2 else 9) for i in range(24)), mem_gb=7, timeout=1200,
             bounds='one add of 8 symbolic bytes, then the pool\'s own lookup (Tree::get) for both 4-byte halves and for 4 arbitrary bytes'),
+] + [
+    Harness('poolm', 'h_poolm_' + nm, unwind=9, unwindset=MLONG, mem_gb=6, timeout=900, bounds=BM % (nm.replace('_', ','), fill))
+    for nm, fill in (('8_8_4', 'no fill()'), ('1_4_1_1_1', 'then fill()'), ('4_4_4_4', 'then fill()'), ('16_8_4', 'then fill()'), ('4_8_4', 'then fill()'), ('1_8_1', 'then fill()'))
 ]
 EXPLANATION = 'bounded symbolic execution (CBMC) of the real ConstPool::add / fill compiled from /repo; offsets and the written image are compared with a list of the constants kept by the harness'
 OUTSIDE = ['measured and dropped (out of memory at the 8 GB cap of one query after 30..280 s): size sequences 8,4 / 4,8 / 8,8 / 1,8,1 / 4,4,4 / 4,8,4 / 16,8,4, i.e. every scenario in which a tree of the pool receives a third node or a node is added next to two shared ones; sharing is therefore checked by lookup after one 8-byte add (h_pool_8_lookup), not through a second add', 'fill() of pools whose trees hold more than one node of a size class (tree walks through the tagged links exhaust the memory cap)', 'size sequences other than the ones listed per harness (sizes are constants per harness: with symbolic sizes the solver reaches no verdict)', 'constants of 32 and 64 bytes (a 64-byte constant registers 30 shared sub-constants: beyond the memory cap of one query)', 'more than 3 adds', 'pools that are not empty at the start']
